@@ -10,6 +10,7 @@ Conversions to an integer type that C leaves undefined (and that are not constan
 -/
 import Tetl.Common
 import Tetl.C16.Spec
+import Tetl.C13.Model
 namespace Tetl.C16.Model
 open Tetl Tetl.C16
 
@@ -27,82 +28,38 @@ def neg (x : Nat) : Nat := F.withSign (!F.sign x) (F.abs x)
 /-- NaN results are canonicalised (payload and sign of a NaN result are not observed) -/
 def canon (x : Nat) : Nat := if F.isNaN x then F.qnan else x
 
-/-- `static_cast<long long>(x)` -/
-def toLL (x : Nat) : Except Err Int :=
-  if !F.isFinite x then .error (.pre "cast of inf/NaN to long long")
-  else
-    let n := F.intMag .trunc (F.abs x)
-    if n < 2 ^ 63 then .ok (if F.sign x then -(n : Int) else (n : Int))
-    else .error (.pre "cast to long long out of range")
+/-! ### constant-evaluated rounding: gcem floor / ceil / trunc / round, `rint_fallback`, `lrint_fallback`
 
-/-- `T(n)` for an integer: correctly rounded, `+0` for 0 -/
-def ofInt (n : Int) : Nat := F.rne (decide (n < 0)) (n.natAbs * 2 ^ F.K) 1
+The code on these paths (gcem_incl/{floor,ceil,trunc,round,find_whole,abs,sgn}.hpp, _cmath/rint.hpp, _cmath/lrint.hpp)
+has ONE model in this framework: `Tetl.C13.Model` (property C13 repaired that code and models it operation by
+operation — every comparison, conversion, addition and multiplication with its IEEE rounding).  C16 imports that
+model instead of keeping a second one; `Fmt.cv` is the same format `(ebits, mbits)` in C13's structure. -/
+/-- the same format as a `Tetl.C13.Fmt` -/
+def _root_.Tetl.C16.Fmt.cv (F : Fmt) : Tetl.C13.Fmt := ⟨F.ebits, F.mbits⟩
 
-/-! ### gcem: floor / ceil / trunc / round (gcem_incl/{floor,ceil,trunc,round,find_whole}.hpp) -/
-/-- `numeric_limits<T>::epsilon()` = 2^-mbits -/
-def epsilon : Nat := (F.bias - F.mbits) * 2 ^ F.mbits
-
-/-- the common prefix of the four `*_check` functions -/
-def gcemCheck (x : Nat) (k : Nat → Except Err Nat) : Except Err Nat :=
-  if F.isNaN x then .ok F.qnan
-  else if !F.isFinite x then .ok x
-  else if F.abs x < epsilon F then .ok x            -- "signed-zero cases": epsilon > abs(x) ? x
-  else k x
-
-def gcemFloor (x : Nat) : Except Err Nat := gcemCheck F x fun x => do
-  let w ← toLL F x
-  -- floor_resid: (x < 0) && (x < xWhole)
-  let resid : Int := if F.sign x && decide (F.smag x < w * 2 ^ F.K) then 1 else 0
-  pure (ofInt F (w - resid))
-
-def gcemCeil (x : Nat) : Except Err Nat := gcemCheck F x fun x => do
-  let w ← toLL F x
-  let resid : Int := if !F.sign x && decide (w * 2 ^ F.K < F.smag x) then 1 else 0
-  pure (ofInt F (w + resid))
-
-def gcemTrunc (x : Nat) : Except Err Nat := gcemCheck F x fun x => do
-  let w ← toLL F x
-  pure (ofInt F w)
-
-/-- `sgn(x) * T(find_whole(abs(x)))`; find_whole: `abs(a - floor a) >= 0.5 ? floor a + 1 : floor a` -/
-def gcemRound (x : Nat) : Except Err Nat := gcemCheck F x fun x => do
-  let a := F.abs x
-  let w ← toLL F a
-  let frac : Int := F.smag a - w * 2 ^ F.K
-  let n : Int := if 2 ^ F.K ≤ 2 * frac then w + 1 else w
-  if n < 2 ^ 63 then pure (F.withSign (F.sign x) (ofInt F n)) else .error (.pre "cast to long long out of range")
+def gcemFloor (x : Nat) : Except Err Nat := Tetl.C13.Model.gcemFloor F.cv x
+def gcemCeil (x : Nat) : Except Err Nat := Tetl.C13.Model.gcemCeil F.cv x
+def gcemTrunc (x : Nat) : Except Err Nat := Tetl.C13.Model.gcemTrunc F.cv x
+def gcemRound (x : Nat) : Except Err Nat := Tetl.C13.Model.gcemRound F.cv x
+/-- rint.hpp `rint_fallback` -/
+def rintFallback (x : Nat) : Except Err Nat := Tetl.C13.Model.rintFallback F.cv x
+/-- lrint.hpp `lrint_fallback<T>(arg)` = `static_cast<T>(rint_fallback(arg))`, T of `w` bits -/
+def lrintFallback (w : Nat) (x : Nat) : Except Err Int := Tetl.C13.Model.lrintFallback F.cv w x
 
 /-! ### tetl's own fallbacks -/
-/-- rint.hpp `rint_fallback` -/
-def rintFallback (x : Nat) : Except Err Nat :=
-  -- limit = 2^(digits-1); `not (arg > -limit and arg < limit)` also catches NaN and infinities
-  let limit := (F.bias + F.mbits) * 2 ^ F.mbits
-  if F.isNaN x then .ok F.qnan
-  else if limit ≤ F.abs x then .ok x
-  else do
-    let w ← toLL F x
-    let frac : Int := (F.mag (F.abs x) : Int) - w.natAbs * 2 ^ F.K
-    let odd := w % 2 ≠ 0
-    let r : Int := if 2 ^ F.K < 2 * frac ∨ (2 * frac = 2 ^ F.K ∧ odd) then (if F.sign x then w - 1 else w + 1) else w
-    if r = 0 then pure (F.withSign (F.sign x) 0) else pure (ofInt F r)
-
-/-- lrint.hpp `lrint_fallback<T>(arg)` = `static_cast<T>(rint_fallback(arg))`, T of `w` bits -/
-def lrintFallback (w : Nat) (x : Nat) : Except Err Int := do
-  let r ← rintFallback F x
-  if !F.isFinite r then .error (.pre "cast of inf/NaN to integer") else
-  let n : Int := F.smag r / 2 ^ F.K
-  if -(2 ^ (w - 1) : Int) ≤ n ∧ n < (2 ^ (w - 1) : Int) then pure n else .error (.pre "cast out of range")
-
-/-- signbit.hpp `signbit_fallback`: shifts the sign bit down -/
+/-- signbit.hpp `signbit_fallback`: shifts the sign bit down (the alternative of `etl::signbit` for compilers
+    without a constexpr `__builtin_signbit`; GCC takes the builtin on both paths) -/
 def signbitFallback (x : Nat) : Bool := (x / F.signBit) % 2 == 1
 
-/-- copysign.hpp `copysign_fallback` -/
+/-- copysign.hpp `copysign_fallback`: `etl::signbit(x) != etl::signbit(y) ? -x : x` -/
 def copysignFallback (x y : Nat) : Nat :=
   if signbitFallback F x != signbitFallback F y then neg F x else x
 
-/-- _math/abs.hpp `abs_impl`: `n >= 0 ? n : n * -1` -/
+/-- _math/abs.hpp `abs_impl`: `n > 0 ? n : n == 0 ? T(0) : n * -1` (a NaN fails both comparisons) -/
 def absImpl (x : Nat) : Nat :=
-  if !F.isNaN x && decide (0 ≤ F.key x) then x else neg F x
+  if !F.isNaN x && decide (0 < F.key x) then x
+  else if !F.isNaN x && decide (F.key x = 0) then 0
+  else neg F x
 
 /-- nextafter.hpp `detail::nextafter` -/
 def nextafter (x y : Nat) : Nat :=
@@ -145,7 +102,7 @@ def lrint (w : Nat) : Path → Nat → Except Err (Option Int)
   | .ct, x => (lrintFallback F w x).map some
 def signbit : Path → Nat → Bool
   | .rt, x => F.signbit x            -- __builtin_signbit
-  | .ct, x => signbitFallback F x
+  | .ct, x => F.signbit x            -- __builtin_signbit is usable in constant expressions (324662e)
 def copysign : Path → Nat → Nat → Nat
   | .rt, x, y => F.copysign x y      -- __builtin_copysign
   | .ct, x, y => copysignFallback F x y
